@@ -134,7 +134,8 @@ impl Check for C05 {
          memory when a collection runs at every allocation point. It is then run with real frees under the natural threshold \
          schedule for limits L in {M, M+64, 1.25M, 1.5M, 2M, 3M, 4M, 8M, default} and seeded L, under forced collections at \
          seeded points, with every k-th allocation failing once (fail-at-j for seeded j), and in quarantine mode (reclamation \
-         audit). A run is non-trivial if at least one collection ran or an allocation failed; distinct = distinct \
+         audit) with a collection at every allocation, every 7th, and few large ones (every (A/3)-th allocation, one at the last). \
+         Programs that run into their budget or allocate more than 60000 times are discarded after a cheap dry run. A run is non-trivial if at least one collection ran or an allocation failed; distinct = distinct \
          (program hash, schedule hash)."
             .to_string()
     }
